@@ -128,3 +128,30 @@ def ops : Ops Nat := { zero := 0, neg := neg, add := add, sub := sub }
 
 end F64
 end Spq
+
+/-! ### additions for the numeric conversions (C14); appended, nothing above is changed -/
+namespace Spq
+namespace F64
+
+/-- correctly rounded `a / b` (divsd).  The quotient of the mantissas is computed with 110 extra bits and a
+    sticky bit, so the single rounding in `pack` is the IEEE rounding.  `x/0` gives ±inf (not used by the
+    library on in-domain inputs); `0/y` gives a signed zero. -/
+def div (a b : Nat) : Nat :=
+  let x := decode a; let y := decode b
+  let s := x.neg != y.neg
+  if y.m == 0 then (if s then 9223372036854775808 else 0) + 2047 * 4503599627370496
+  else if x.m == 0 then (if s then 9223372036854775808 else 0)
+  else
+    let n := x.m * 2 ^ 110
+    let q := n / y.m
+    let r := n % y.m
+    pack s (2 * q + (if r == 0 then 0 else 1)) (x.e - y.e - 111)
+
+/-- the pattern of `2^j` for a normal exponent `-1022 ≤ j ≤ 1023` -/
+def pow2 (j : Int) : Nat := (j + 1023).toNat * 4503599627370496
+
+/-- `(double) x` for a uint64 (exact below 2^53, correctly rounded above) -/
+def ofNat (x : Nat) : Nat := packSigned (x : Int) 0 false
+
+end F64
+end Spq
